@@ -44,7 +44,11 @@ def make(kind, factor, kw=None):
     q = getattr(queueutils, kind)(**(kw or {}))
     if factor is not None:
         try:
-            q._pq._size_factor = factor    # instance attribute: this queue's BarrelList splits early
+            from boltons.listutils import BarrelList
+            # whatever the attribute holding the backend is called: this queue's BarrelList splits early
+            for val in list(vars(q).values()):
+                if isinstance(val, BarrelList):
+                    val._size_factor = factor
         except Exception:
             pass
     return q
